@@ -640,4 +640,251 @@ theorem backshift_TWF (P : Params κ) (hP : P.Good) (n : Nat) (hsz : SizeOk P n)
         apply ih c h (i + 1) hc hbh (by omega) (by omega) (LInv_skip P n c h i inv k v hs d hlt hp)
         exact ⟨q, by omega, hq2, hq3⟩
 
+/-! ## What the back-shift does to the contents: it only moves entries into the hole -/
+
+/-- one move of the back-shift: the entry `e` at `i` goes to the hole `h` -/
+def move (n : Nat) (c : List (Cell κ)) (h i : Nat) (e : κ × Nat) : List (Cell κ) :=
+  (c.set (h % n) (some e)).set (i % n) none
+
+theorem length_move (n : Nat) (c : List (Cell κ)) (h i : Nat) (e : κ × Nat) : (move n c h i e).length = c.length := by
+  simp [move]
+
+theorem slot_move (n : Nat) (c : List (Cell κ)) (h i : Nat) (e : κ × Nat) (hc : c.length = n) (hn : 0 < n) (j : Nat) :
+    slot (move n c h i e) j = if i % n = j % n then none else if h % n = j % n then some e else slot c j := by
+  unfold move
+  rw [slot_set' _ n i j none (by simp [hc]) hn, slot_set' c n h j _ hc hn]
+
+/-- any property kept by single moves is kept by the whole back-shift loop; `stop` is an empty slot
+ahead (the loop never gets past it) -/
+theorem backshift_ind (P : Params κ) (n b stop : Nat) (hstop : stop < b + n) (Q : List (Cell κ) → Prop)
+    (hmove : ∀ c h i e, c.length = n → b ≤ h → h < i → i < stop → slot c h = none → slot c i = some e →
+      slot c stop = none → Q c → Q (move n c h i e)) :
+    ∀ (fuel : Nat) (c : List (Cell κ)) (h i : Nat), c.length = n → b ≤ h → h < i → i ≤ stop →
+      slot c h = none → slot c stop = none → Q c →
+      Q (backshift P n fuel c h i) ∧ slot (backshift P n fuel c h i) stop = none := by
+  intro fuel
+  induction fuel with
+  | zero => intro c h i _ _ _ _ _ hs hq; exact ⟨hq, hs⟩
+  | succ fuel ih =>
+    intro c h i hc hbh hhi his hh hs hq
+    unfold backshift
+    split
+    · exact ⟨hq, hs⟩
+    · rename_i k v hsi
+      have hlt : i < stop := by
+        rcases Nat.eq_or_lt_of_le his with e | e
+        · rw [e, hs] at hsi; cases hsi
+        · exact e
+      split
+      · have hn : 0 < n := by omega
+        have hm : (c.set (h % n) (some (k, v))).set (i % n) none = move n c h i (k, v) := rfl
+        rw [hm]
+        apply ih _ i (i + 1) (by rw [length_move, hc]) (by omega) (by omega) (by omega)
+        · rw [slot_move n c h i _ hc hn]; simp
+        · rw [slot_move n c h i _ hc hn]
+          have h1 : i % n ≠ stop % n := mod_ne_of_lt n i stop hlt (by omega)
+          have h2 : h % n ≠ stop % n := mod_ne_of_lt n h stop (by omega) (by omega)
+          simp [h1, h2, hs]
+        · exact hmove c h i (k, v) hc hbh hhi hlt hh hsi hs hq
+      · exact ih c h (i + 1) hc hbh (by omega) (by omega) hh hs hq
+
+theorem occ_move (n : Nat) (c : List (Cell κ)) (h i : Nat) (e : κ × Nat) (hc : c.length = n)
+    (hne : h % n ≠ i % n) (hh : slot c h = none) (hi : slot c i = some e) : occ (move n c h i e) = occ c := by
+  have hn : 0 < n := by
+    rcases Nat.eq_zero_or_pos n with h0 | h0
+    · subst h0; simp at hne
+      unfold slot at hh hi; rw [hc] at hh hi; simp at hh hi
+      exfalso
+      have : c = [] := List.eq_nil_of_length_eq_zero hc
+      subst this; simp at hi
+    · exact h0
+  have hhn : h % n < c.length := by rw [hc]; exact Nat.mod_lt _ hn
+  have hin : i % n < (c.set (h % n) (some e)).length := by simp [hc]; exact Nat.mod_lt _ hn
+  have e1 := occ_set c (h % n) (some e) hhn
+  have e2 := occ_set (c.set (h % n) (some e)) (i % n) none hin
+  have g1 : c[h % n] = none := by
+    unfold slot at hh; rw [hc, List.getElem?_eq_getElem hhn] at hh; simpa using hh
+  have g2 : (c.set (h % n) (some e))[i % n] = some e := by
+    rw [List.getElem_set_ne hne]
+    unfold slot at hi
+    have : i % n < c.length := by rw [hc]; exact Nat.mod_lt _ hn
+    rw [hc, List.getElem?_eq_getElem this] at hi; simpa using hi
+  rw [g1] at e1; rw [g2] at e2
+  simp at e1 e2
+  unfold move; omega
+
+/-- a move inside a window of at most `n` consecutive positions keeps the set of entries in the window -/
+theorem mem_move_window (n : Nat) (c : List (Cell κ)) (h i : Nat) (e : κ × Nat) (hc : c.length = n)
+    (p w : Nat) (hw : w ≤ p + n) (hph : p ≤ h) (hhi : h < i) (hiw : i < w)
+    (hh : slot c h = none) (hi : slot c i = some e) (e' : κ × Nat) :
+    (∃ q, p ≤ q ∧ q < w ∧ slot (move n c h i e) q = some e') ↔ (∃ q, p ≤ q ∧ q < w ∧ slot c q = some e') := by
+  have hn : 0 < n := by omega
+  have hne : h % n ≠ i % n := mod_ne_of_lt n h i hhi (by omega)
+  constructor
+  · rintro ⟨q, hq1, hq2, hs⟩
+    rw [slot_move n c h i e hc hn] at hs
+    split at hs
+    · cases hs
+    · split at hs
+      · cases hs; exact ⟨i, by omega, hiw, hi⟩
+      · exact ⟨q, hq1, hq2, hs⟩
+  · rintro ⟨q, hq1, hq2, hs⟩
+    by_cases hqi : q = i
+    · subst hqi
+      rw [hi] at hs; cases hs
+      refine ⟨h, hph, by omega, ?_⟩
+      rw [slot_move n c h q e hc hn]
+      have hne' : ¬ q % n = h % n := fun x => hne x.symm
+      simp [hne']
+    · have h1 : i % n ≠ q % n := by
+        rcases Nat.lt_or_ge q i with hlt | hge
+        · exact fun x => mod_ne_of_lt n q i hlt (by omega) x.symm
+        · exact mod_ne_of_lt n i q (by omega) (by omega)
+      have h2 : h % n ≠ q % n := by
+        intro heq
+        have : slot c q = slot c h := by apply slot_congr; rw [hc]; exact heq.symm
+        rw [this, hh] at hs; cases hs
+      refine ⟨q, hq1, hq2, ?_⟩
+      rw [slot_move n c h i e hc hn]
+      simp [h1, h2, hs]
+
+/-- entries of the whole table, seen through a window of `n` consecutive positions -/
+theorem window_full (c : List (Cell κ)) (n b : Nat) (hc : c.length = n) (hn : 0 < n) (e : κ × Nat) :
+    (∃ q, b ≤ q ∧ q < b + n ∧ slot c q = some e) ↔ (∃ j, j < n ∧ slot c j = some e) := by
+  constructor
+  · rintro ⟨q, _, _, hs⟩
+    exact ⟨q % n, Nat.mod_lt _ hn, by rw [← hc, slot_mod]; exact hs⟩
+  · rintro ⟨j, hj, hs⟩
+    by_cases hjb : j = b % n
+    · refine ⟨b, Nat.le_refl _, by omega, ?_⟩
+      rw [← hs]; apply slot_congr; rw [hc, hjb, Nat.mod_mod]
+    · obtain ⟨q, h1, h2, h3⟩ := exists_rep n b j hj hjb
+      refine ⟨q, by omega, h2, ?_⟩
+      rw [← hs]; apply slot_congr; rw [hc, h3, Nat.mod_eq_of_lt hj]
+
+/-! ## `clear_elem` as a whole -/
+
+/-- the table after `clear_elem` on slot `i` -/
+def cleared (P : Params κ) (c : List (Cell κ)) (i : Nat) : List (Cell κ) :=
+  backshift P c.length (c.length - 1) (c.set (i % c.length) none) i (i + 1)
+
+theorem exists_ahead (c : List (Cell κ)) (i : Nat) (e : κ × Nat) (hs : slot c i = some e) (hocc : occ c < c.length) :
+    ∃ q, i < q ∧ q < i + c.length ∧ slot c q = none := by
+  obtain ⟨j, hj, hjn⟩ := exists_none_of_occ_lt c hocc
+  have hne : j ≠ i % c.length := by
+    intro heq; rw [← slot_mod, ← heq, hjn] at hs; cases hs
+  obtain ⟨q, h1, h2, h3⟩ := exists_rep c.length i j hj hne
+  exact ⟨q, h1, h2, by rw [← slot_mod, h3]; exact hjn⟩
+
+theorem cleared_window (P : Params κ) (c : List (Cell κ)) (i : Nat) (e : κ × Nat) (hs : slot c i = some e)
+    (stop w : Nat) (h1 : i < stop) (h2 : stop < i + c.length) (h3 : stop ≤ w) (h4 : w ≤ i + c.length)
+    (hstop : slot c stop = none) :
+    slot (cleared P c i) stop = none ∧
+    ∀ e', (∃ q, i ≤ q ∧ q < w ∧ slot (cleared P c i) q = some e') ↔ (∃ q, i < q ∧ q < w ∧ slot c q = some e') := by
+  have hn : 0 < c.length := by omega
+  have hslot0 : ∀ j, slot (c.set (i % c.length) none) j = if i % c.length = j % c.length then none else slot c j :=
+    fun j => slot_set c i j none hn
+  have key := backshift_ind P c.length i stop h2
+    (fun t => ∀ e', (∃ q, i ≤ q ∧ q < w ∧ slot t q = some e') ↔ (∃ q, i < q ∧ q < w ∧ slot c q = some e'))
+    (by
+      intro t h i' e0 ht hb hhi his hh hi _ hq e'
+      rw [mem_move_window c.length t h i' e0 ht i w h4 hb hhi (by omega) hh hi e']
+      exact hq e')
+    (c.length - 1) (c.set (i % c.length) none) i (i + 1) (by simp) (Nat.le_refl _) (by omega) (by omega)
+    (by rw [hslot0]; simp)
+    (by rw [hslot0]; simp [mod_ne_of_lt c.length i stop h1 h2, hstop])
+    (by
+      intro e'
+      constructor
+      · rintro ⟨q, hq1, hq2, hq3⟩
+        rw [hslot0] at hq3
+        split at hq3
+        · cases hq3
+        · rename_i hne
+          refine ⟨q, ?_, hq2, hq3⟩
+          rcases Nat.eq_or_lt_of_le hq1 with heq | hlt
+          · subst heq; exact absurd rfl hne
+          · exact hlt
+      · rintro ⟨q, hq1, hq2, hq3⟩
+        refine ⟨q, by omega, hq2, ?_⟩
+        rw [hslot0]
+        simp [mod_ne_of_lt c.length i q hq1 (by omega), hq3])
+  exact ⟨key.2, key.1⟩
+
+theorem length_cleared (P : Params κ) (c : List (Cell κ)) (i : Nat) : (cleared P c i).length = c.length := by
+  unfold cleared
+  generalize c.length - 1 = fuel
+  have : ∀ (fuel : Nat) (t : List (Cell κ)) (h j : Nat), (backshift P c.length fuel t h j).length = t.length := by
+    intro fuel
+    induction fuel with
+    | zero => intro t h j; rfl
+    | succ fuel ih =>
+      intro t h j
+      unfold backshift
+      split
+      · rfl
+      · split
+        · rw [ih]; simp
+        · rw [ih]
+  rw [this]; simp
+
+theorem occ_cleared (P : Params κ) (c : List (Cell κ)) (i : Nat) (e : κ × Nat) (hs : slot c i = some e)
+    (hocc : occ c < c.length) : occ (cleared P c i) + 1 = occ c := by
+  have hn : 0 < c.length := by omega
+  obtain ⟨stop, h1, h2, h3⟩ := exists_ahead c i e hs hocc
+  have hslot0 : ∀ j, slot (c.set (i % c.length) none) j = if i % c.length = j % c.length then none else slot c j :=
+    fun j => slot_set c i j none hn
+  have hin : i % c.length < c.length := Nat.mod_lt _ hn
+  have h0 : occ (c.set (i % c.length) none) + 1 = occ c := by
+    have := occ_set c (i % c.length) none hin
+    have g : c[i % c.length] = some e := by
+      unfold slot at hs; rw [List.getElem?_eq_getElem hin] at hs; simpa using hs
+    rw [g] at this; simpa using this
+  have key := backshift_ind P c.length i stop h2 (fun t => occ t + 1 = occ c)
+    (by
+      intro t h i' e0 ht hb hhi his hh hi _ hq
+      rw [occ_move c.length t h i' e0 ht (mod_ne_of_lt c.length h i' hhi (by omega)) hh hi]
+      exact hq)
+    (c.length - 1) (c.set (i % c.length) none) i (i + 1) (by simp) (Nat.le_refl _) (by omega) (by omega)
+    (by rw [hslot0]; simp)
+    (by rw [hslot0]; simp [mod_ne_of_lt c.length i stop h1 h2, h3])
+    h0
+  exact key.1
+
+theorem TWF_cleared (P : Params κ) (hP : P.Good) (c : List (Cell κ)) (hsz : SizeOk P c.length) (h : TWF P c)
+    (i : Nat) (e : κ × Nat) (hs : slot c i = some e) (hocc : occ c < c.length) : TWF P (cleared P c i) := by
+  have hn2 := hsz.pos hP
+  obtain ⟨stop, h1, h2, h3⟩ := exists_ahead c i e hs hocc
+  unfold cleared
+  apply backshift_TWF P hP c.length hsz i (c.length - 1) _ i (i + 1) (by simp) (Nat.le_refl _) (by omega) (by omega)
+    (LInv_init P c h i (by omega))
+  refine ⟨stop, by omega, h2, ?_⟩
+  rw [slot_set c i stop none (by omega)]
+  simp [mod_ne_of_lt c.length i stop h1 h2, h3]
+
+/-- entries of the table after `clear_elem`: all the others, each still there -/
+theorem mem_cleared (P : Params κ) (c : List (Cell κ)) (h : TWF P c) (i : Nat) (k : κ) (v : Nat)
+    (hs : slot c i = some (k, v)) (hocc : occ c < c.length) (e' : κ × Nat) :
+    (∃ j, j < c.length ∧ slot (cleared P c i) j = some e') ↔
+    ((∃ j, j < c.length ∧ slot c j = some e') ∧ e'.1 ≠ k) := by
+  have hn : 0 < c.length := by omega
+  obtain ⟨stop, h1, h2, h3⟩ := exists_ahead c i (k, v) hs hocc
+  have key := (cleared_window P c i (k, v) hs stop (i + c.length) h1 h2 (by omega) (Nat.le_refl _) h3).2 e'
+  rw [← window_full (cleared P c i) c.length i (length_cleared P c i) hn e', key]
+  have hsi : slot c (i % c.length) = some (k, v) := by rw [slot_mod]; exact hs
+  constructor
+  · rintro ⟨q, hq1, hq2, hq3⟩
+    refine ⟨⟨q % c.length, Nat.mod_lt _ hn, by rw [slot_mod]; exact hq3⟩, ?_⟩
+    intro hk
+    obtain ⟨k', v'⟩ := e'
+    simp only at hk; subst hk
+    have := h.uniq (q % c.length) (i % c.length) k' v' v (Nat.mod_lt _ hn) (Nat.mod_lt _ hn)
+      (by rw [slot_mod]; exact hq3) hsi
+    exact mod_ne_of_lt c.length i q hq1 hq2 this.symm
+  · rintro ⟨⟨j, hj, hjs⟩, hk⟩
+    have hne : j ≠ i % c.length := by
+      intro heq; subst heq; rw [hsi] at hjs; cases hjs; exact hk rfl
+    obtain ⟨q, g1, g2, g3⟩ := exists_rep c.length i j hj hne
+    exact ⟨q, g1, g2, by rw [← slot_mod, g3]; exact hjs⟩
+
 end Lm.Struct.Map
